@@ -70,6 +70,20 @@ impl Codepage for u8 {
     }
 }
 
+/// Encode a single non-ascii character in the given codepage, if the codepage really has it.
+/// Some encoders map look-alikes onto ascii bytes (i.e. Shift-JIS encodes U+00A5 YEN SIGN as 0x5C),
+/// which every LFS codepage reads back as the ascii character: that is not a usable encoding.
+fn try_encode_char<'a>(
+    encoding: &'static encoding_rs::Encoding,
+    c: &'a str,
+) -> Option<Cow<'a, [u8]>> {
+    let (cow, _, error) = encoding.encode(c);
+    if error || cow.iter().all(|b| b.is_ascii()) {
+        return None;
+    }
+    Some(cow)
+}
+
 /// Convert from a String, with potential lossy conversion to an Insim Codepage String
 /// Assumes you will escape any characters ahead of time, it will do not this for you.
 /// See <https://github.com/theangryangel/insim.rs/issues/92> for further details.
@@ -115,10 +129,7 @@ pub fn to_lossy_bytes(input: &str) -> Cow<[u8]> {
         buf.fill(0);
         let char_as_bytes = c.encode_utf8(&mut buf);
 
-        // allowing unwrap because we should never get to a position where we cannot have one
-        let (cow, _, error) = current_encoding.encode(char_as_bytes);
-
-        if !error {
+        if let Some(cow) = try_encode_char(current_encoding, char_as_bytes) {
             output.extend_from_slice(&cow);
             continue;
         }
@@ -136,11 +147,11 @@ pub fn to_lossy_bytes(input: &str) -> Cow<[u8]> {
                 .unwrap_or_else(|| unreachable!());
 
             // try to encode the current character
-            let (cow, _, error) = candidate_encoding.encode(char_as_bytes);
-            if error {
+            let cow = match try_encode_char(candidate_encoding, char_as_bytes) {
+                Some(cow) => cow,
                 // this codepage doesnt match, try the next one
-                continue;
-            }
+                None => continue,
+            };
 
             // this one matched, push the control character and codepage control character
             output.push(u8::lfs_control_char());
